@@ -282,12 +282,18 @@ def L_INH(cs=None):
         step('gex', 'exist', requires=[fld('os2')], reaches=[astep('tG2')]),
     ])
     O = asset('O', steps=[step('tO', 'or'), step('back', 'or', reaches=[to(fld('ps'), 'tP')]),
-                          step('exO', 'exist', requires=[sub('G1', fld('ps'))])], category='C2')
+                          step('exO', 'exist', requires=[sub('G1', fld('ps'))]),
+                          # subtype filters whose matching instances are children and grandchildren of the filter type
+                          step('viaP', 'or', reaches=[to(sub('P', fld('ps')), 'tP'), to(sub('Am', fld('ps')), 'tA')]),
+                          step('chain', 'or', reaches=[to(fld('nxt'), 'tO'), to(trans(fld('prv')), 'tO')]),
+                          # a defense with the same name as P's but the opposite default
+                          step('dP', 'defense', reaches=[astep('tO')], ttc=DISABLED)], category='C2')
     assocs = [assoc('L', 'P', 'ps', MANY, 'O', 'os', MANY),
               assoc('L1', 'P', 'ps1', (0, 1), 'O', 'os1', (1, 1)),
               assoc('L2', 'Am', 'as2', (1, None), 'O', 'os2', (0, 2)),
               assoc('Dup', 'G1', 'dg1', MANY, 'O', 'do1', MANY),
-              assoc('Dup', 'G2', 'dg2', MANY, 'O', 'do2', MANY)]
+              assoc('Dup', 'G2', 'dg2', MANY, 'O', 'do2', MANY),
+              assoc('Chain', 'O', 'prv', MANY, 'O', 'nxt', MANY)]
     return spec([P, A, G1, G2, O], assocs, lang_id='verif.linh')
 
 
@@ -352,6 +358,25 @@ def L_SYM():
     W = asset('W', steps=[step('t', 'or'), step('hop', 'or', reaches=[to(fld('nb'), 't')])])
     X = asset('X', steps=[step('t', 'or')])
     return spec([R, R2, W, X], [assoc('Link', 'R', 'nb', MANY, 'W', 'nb', MANY), assoc('Up', 'W', 'ws', MANY, 'X', 'xs', (0, 1))], lang_id='verif.lsym')
+
+
+def L_ROLE():
+    """Host is known as `owner` to its VMs and has its own field `owner` (-> User) through a later association."""
+    Host = asset('Host', steps=[step('access', 'or', reaches=[to(fld('owner'), 'compromise'), to(fld('vms'), 'compromise')]), step('compromise', 'or')])
+    VM = asset('VM', steps=[step('compromise', 'or', reaches=[to(fld('owner'), 'access')])])
+    User = asset('User', steps=[step('compromise', 'or', reaches=[to(fld('hosts'), 'access')])])
+    return spec([Host, VM, User], [assoc('Hosting', 'Host', 'owner', MANY, 'VM', 'vms', MANY),
+                                   assoc('Owns', 'User', 'owner', MANY, 'Host', 'hosts', MANY)], lang_id='verif.lrole')
+
+
+def L_TWIN():
+    """Two associations that share both field names between different pairs of types."""
+    Host = asset('Host', steps=[step('t', 'or', reaches=[to(fld('items'), 't')])])
+    Disk = asset('Disk', steps=[step('t', 'or')])
+    Net = asset('Net', steps=[step('t', 'or', reaches=[to(fld('items'), 't')])])
+    Packet = asset('Packet', steps=[step('t', 'or', reaches=[to(fld('owner'), 't')])])
+    return spec([Host, Disk, Net, Packet], [assoc('Holds', 'Host', 'owner', MANY, 'Disk', 'items', MANY),
+                                            assoc('Carries', 'Net', 'owner', MANY, 'Packet', 'items', MANY)], lang_id='verif.ltwin')
 
 
 ILL = ['unknown super asset', 'unknown association end (left)', 'unknown association end (right)',
